@@ -77,17 +77,17 @@ type dScenario struct {
 
 // dseen is one answer of the tailoring authority.
 type dseen struct {
-	Gen    uint32
-	Name   string // lower case, live namespace
-	Qtype  uint16
-	Server string
-	Req    *ecsVal // subnet the authority saw (nil: none / unreadable)
-	Decl   *ecsVal // scope it declared (nil: none / 0)
-	TTL    uint32
+	Gen      uint32
+	Name     string // lower case, live namespace
+	Qtype    uint16
+	Server   string
+	Req      *ecsVal // subnet the authority saw (nil: none / unreadable)
+	Decl     *ecsVal // scope it declared (nil: none / 0)
+	TTL      uint32
 	Negative bool // a tailored NODATA (marker = SOA serial)
-	Win    int // window (op index) during which it was produced
-	AdvAt  time.Duration
-	q      *dns.Msg
+	Win      int  // window (op index) during which it was produced
+	AdvAt    time.Duration
+	q        *dns.Msg
 }
 
 type dWorld struct {
@@ -352,17 +352,17 @@ func markersD(m *dns.Msg) (gens []uint32, ttls []uint32, negative bool) {
 // ------------------------------------------------------------------ env
 
 type denv struct {
-	r    *vlib.Run
-	w    *dWorld
-	sc   *dScenario
-	pol  PolicySpec
-	m    *model
-	rs   *authsim.RStack
-	mu   sync.Mutex
-	gen  uint32
-	gens map[uint32]*dseen
-	byQ  map[*dns.Msg]*dseen
-	seen []*dseen
+	r     *vlib.Run
+	w     *dWorld
+	sc    *dScenario
+	pol   PolicySpec
+	m     *model
+	rs    *authsim.RStack
+	mu    sync.Mutex
+	gen   uint32
+	gens  map[uint32]*dseen
+	byQ   map[*dns.Msg]*dseen
+	seen  []*dseen
 	win   int
 	adv   time.Duration
 	gates map[string]*authsim.Gate
